@@ -2,7 +2,7 @@
    Model as of /repo d4ac685 (v0 = the code as it is). *)
 From Coq Require Import List Arith Bool ZArith Permutation Lia.
 From Cicada Require Import Model.OsLite Model.Pipeline Model.WaitFg
-     Proofs.OsLiteProofs Proofs.PipelineProofs Proofs.ChildProofs Proofs.EofProofs Proofs.WaitFgProofs.
+     Proofs.OsLiteProofs Proofs.PipelineProofs Proofs.ChildProofs Proofs.EofProofs Proofs.SigProofs Proofs.WaitFgProofs.
 Import ListNotations.
 
 Definition nf (_ : nat) := false.
@@ -108,6 +108,25 @@ Example C02_here_nonfirst :
   /\ map (fun k => map (obj_at (tab (k_proc k))) [3; 4; 5]) (res_kids r) = [[None; None; None]; [None; None; None]].
 Proof. vm_compute. split; reflexivity. Qed.
 
+(* signal dispositions at the start of every stage ("a stage that exits without reading: upstream gets SIGPIPE" needs SIGPIPE at
+   its default in the upstream program): for every pipeline, every stage position, with or without here-strings anywhere, the
+   program starts with SIGPIPE, SIGTSTP, SIGQUIT, SIGINT at default and every other signal as the shell had it; the shell itself
+   has SIGPIPE at default again after the line (main.rs sets it to default at start-up: the hypothesis) *)
+Theorem C02_stage_signals : forall sts D cs D',
+  D SgPipe = false ->
+  stages_disp sts D = (cs, D') ->
+  length cs = length sts /\ D' SgPipe = false /\
+  Forall (fun c => c SgPipe = false /\ c SgTstp = false /\ c SgQuit = false /\ c SgInt = false /\
+                   forall n, c (SgOther n) = D (SgOther n)) cs.
+Proof. exact stages_disp_spec. Qed.
+Example C02_stage_signals_nonvacuous :
+  let D0 : disp := fun s => match s with SgTstp | SgQuit | SgOther 25 => true | _ => false end in
+  let '(cs, D') := stages_disp [mks FHere [] KExt []; ext; mks FHere [] KExt []] D0 in
+  map (fun c => map c [SgPipe; SgTstp; SgQuit; SgInt; SgOther 25]) cs
+  = [[false; false; false; false; true]; [false; false; false; false; true]; [false; false; false; false; true]]
+  /\ D' SgPipe = false /\ D' SgTstp = true.
+Proof. vm_compute. repeat split; reflexivity. Qed.
+
 (* the status: whatever order the stages finish in *)
 Theorem C02_wait : forall pids evs rest,
   NoDup pids -> ~ In 0%Z pids ->
@@ -135,6 +154,7 @@ Proof. exact ex_schedule. Qed.
 
 Print Assumptions C02_wiring.
 Print Assumptions C02_eof.
+Print Assumptions C02_stage_signals.
 Print Assumptions C02_wait.
 Print Assumptions C02_wait_order_independent.
 Print Assumptions C02_once_and_shell_holds_nothing.
